@@ -12,6 +12,10 @@ package connection
 //@ pure disjoint(a ref, b ref) bool = base(a) != base(b) || base(a) == 0
 
 //@ func (*WebsocketNetConn).Read props(C15,C07)
+//@   local bs param 0 0
+//@   local c recv 0 0
+//@   local count result 0 0
+//@   local msgType define 0 0 _ . ReadMessage ( )
 //@   requires c != nil && c.Conn != nil && disjoint(bs, c.bufferedMsg)
 //@   assigns c.bufferedMsg, elems(bs)
 //@   ghost decodes int = 0
@@ -49,6 +53,8 @@ package connection
 // connection's read state is touched (disjoint from Read's frame), so the two directions cannot disturb each other.
 
 //@ func (*WebsocketNetConn).Write props(C15,C07)
+//@   local bs param 0 0
+//@   local c recv 0 0
 //@   requires c != nil && c.Conn != nil
 //@   assigns nothing
 //@   ghost writes int = 0
@@ -63,6 +69,11 @@ package connection
 // upgraded websocket in a fresh WebsocketNetConn (nothing shared with other connections), dials the configured local
 // port, and copies each direction once between exactly these two ends.
 //@ func Handler$1 props(C15,C16,C07)
+//@   local backendHost define 0 0 fmt . Sprintf ( "localhost:%d" , _ )
+//@   local frontendConn define 0 0 & WebsocketNetConn { Conn : _ }
+//@   local passthroughHandler param 1 1
+//@   local r param 0 1
+//@   local w param 0 0
 //@   at if !websocket.IsWebSocketUpgrade(r) || r.URL.Path != StreamingPath
 //@   requires w != nil && r != nil && r.URL != nil && passthroughHandler != nil
 //@   ghost upOK bool = false
@@ -110,6 +121,8 @@ package connection
 // the far peer can observe end-of-stream; the other direction then fails on the closed connection and the handler's
 // deferred closes release both ends.
 //@ func Handler$1$1 props(C15,C16,C07)
+//@   local backendConn define 0 0 net . Dial ( "tcp" , _ )
+//@   local frontendConn define 0 0 & WebsocketNetConn { Conn : _ }
 //@   at io.Copy(backendConn, frontendConn)
 //@   requires frontendConn != nil && backendConn != nil
 //@   ghost closedDst int = 0
@@ -123,6 +136,8 @@ package connection
 //@     do copies = copies + 1
 //@   ensures[C15:one-copy-loop-per-direction] copies == 1
 //@ func Handler$1$2 props(C15,C16,C07)
+//@   local backendConn define 0 0 net . Dial ( "tcp" , _ )
+//@   local frontendConn define 0 0 & WebsocketNetConn { Conn : _ }
 //@   at io.Copy(frontendConn, backendConn)
 //@   requires frontendConn != nil && frontendConn.Conn != nil && backendConn != nil
 //@   ghost closedDst int = 0
@@ -137,6 +152,7 @@ package connection
 //@   ensures[C15:one-copy-loop-per-direction] copies == 1
 
 //@ func DialWebsocket props(C15,C16,C07)
+//@   local backendURL param 0 1
 //@   requires backendURL != nil
 //@   assigns nothing
 //@   ensures[C15:dialled-connection-or-error] r1 == nil ==> r0 != nil
